@@ -180,7 +180,12 @@ def run_doc(trees, rec, tag, collect=None, ctx=None):
             doc2 = Document(path)
     except Exception as e:  # noqa: BLE001
         rec.violation("save_or_reopen_raised", {"exc": type(e).__name__}, {"msg": str(e)[:300]}, case={"part": "doc", "trees": [enc_tree(t) for t, _ in trees[:3]]})
+        if os.path.exists(path):
+            os.remove(path)
         return
+    try:
+        if ctx and ctx.get("j", 1) % (ctx.get("per_doc", 400) * 6) == 0:
+            fresh_process_orders(path, trees, rec, ctx)
     finally:
         if os.path.exists(path):
             os.remove(path)
@@ -219,6 +224,47 @@ def run_doc(trees, rec, tag, collect=None, ctx=None):
             rec.violation("tree_differs", fields, {"text": text, "where": d[0], "want": repr(_lit_at(want, d[0]))[:100], "got": repr(_lit_at(got, d[0]))[:100]}, case=case)
         else:
             rec.count("trees_equal")
+
+
+READER = """
+import json, sys, warnings
+warnings.simplefilter("ignore")
+from numbers_parser import Document
+t = Document(sys.argv[1]).sheets[0].tables[0]
+out = []
+for r, c in json.loads(sys.argv[2]):
+    try:
+        out.append(t.cell(r, c).formula)
+    except Exception as e:
+        out.append("raised:" + type(e).__name__)
+print(json.dumps(out))
+"""
+
+
+def fresh_process_orders(path, trees, rec, ctx):
+    """"Reading a formula is deterministic": the text of a stored expression is a function of the document, not of what the
+    process rendered before.  Two fresh interpreters read every formula of the saved file, one in storage order and one in
+    reverse; cell by cell the texts must be identical."""
+    import json
+    import subprocess
+    import sys
+    hosts = [list(h) for _, h in trees]
+    got = []
+    for order in (hosts, hosts[::-1]):
+        try:
+            p = subprocess.run([sys.executable, "-c", READER, path, json.dumps(order)], capture_output=True, text=True, timeout=600)
+            got.append(dict(zip(map(tuple, order), json.loads(p.stdout.strip().splitlines()[-1]))))
+        except Exception as e:  # noqa: BLE001 - the reader process itself failed: nothing observed
+            rec.note(f"fresh-process reader failed: {type(e).__name__}")
+            return
+    rec.count("documents_read_by_two_fresh_processes")
+    for tree, (r, c) in trees:
+        rec.count("formulas_read_in_two_orders")
+        a, b = got[0].get((r, c)), got[1].get((r, c))
+        if a != b:
+            rec.violation("text_depends_on_read_order", {"raised": str(a).startswith("raised:") or str(b).startswith("raised:")}, {"forward": a, "reverse": b},
+                          case={"part": "tree", "tree": enc_tree(tree), "host": [r, c], "ctx": ctx})
+            return
 
 
 def _lit_at(t, path):
